@@ -1,4 +1,5 @@
 import HypatiaProofs.Lemmas.OptimizeSound
+import HypatiaProofs.Lemmas.OptimizeExact
 import HypatiaProofs.Lemmas.QueryEndToEnd
 
 /-!
@@ -188,6 +189,32 @@ theorem c05_illtyped_order_witness :
     let q : Q := .and [.cmp .lt 0 (.one 3), .cmp .contains 0 (.one 1), .cmp .gt 0 (.one 1)]
     wellTyped cat q = false ∧ optimize q = .and [.cmp .contains 0 (.one 1), .range false 0 1 3 true true] ∧
       applyQ cat q = .ok [] ∧ applyQ cat (optimize q) = .error .attributeError := ⟨rfl, rfl, rfl, rfl⟩
+
+/-! ## the excluded regions are exact (for every catalog, not only on the witnesses) -/
+
+/-- D3: whenever the optimiser's result for a well-typed tree is a folded `Any/All/NotAny/NotAll` its index
+class lacks, the unoptimised execution succeeds and the optimised one raises `AttributeError` -/
+theorem c05_d3_exact (cat : Catalog) (q : Q) (hw : wellTyped cat q = true) (c : Cmp) (i : Nat) (xs : List Int)
+    (hopt : optimize q = .cmp c i (.many xs)) (hc : c = .any ∨ c = .all ∨ c = .notany ∨ c = .notall)
+    (ix : IndexT) (hi : cat[i]? = some ix) (hs : supports ix c = false) :
+    (∃ r, applyQ cat q = .ok r) ∧ applyQ cat (optimize q) = .error .attributeError :=
+  ⟨applyQ_ok cat _ q (Nat.le_refl _) hw, by rw [hopt]; exact folded_unsupported_raises cat c i xs hc ix hi hs⟩
+
+/-- D5: `Or(Lt/Le a, Gt/Ge b)` on a field index gains *every* value-less document of that index – so the
+hypothesis "the index has no value-less documents" cannot be weakened -/
+theorem c05_d5_exact (cat : Catalog) (i : Nat) (t : Field.Spec.Table Int) (hi : cat[i]? = some (.field t))
+    (d : Int) (hk : d ∈ Field.Spec.known t) (hv : Field.Spec.valueOf t d = none) (a b : Int) (s1 s2 : Bool) :
+    d ∈ val cat (optimize (.or [.cmp (upperCmp s1) i (.one a), .cmp (lowerCmp s2) i (.one b)])) ∧
+      d ∉ val cat (.or [.cmp (upperCmp s1) i (.one a), .cmp (lowerCmp s2) i (.one b)]) :=
+  valueless_gained hi d hk hv a b s1 s2
+
+/-- D2: `Or(NotEq,…,NotEq)` on a keyword/facet index is folded to `NotAll`; on every document the index
+knows, the optimised answer is the opposite of the unoptimised one -/
+theorem c05_d2_exact (cat : Catalog) (i : Nat) (t : AMap Int (Option (List Int)))
+    (hi : cat[i]? = some (.keyword t)) (qs : List Q) (xs : List Int)
+    (h : foldSame .noteq qs = some (i, xs)) (d : Int) (hk : d ∈ kwKnown t) :
+    d ∈ val cat (optimize (.or qs)) ↔ d ∉ val cat (.or qs) :=
+  notall_fold_flips hi h d hk
 
 /-! ## non-vacuity of `c05_optimize_sound_partial` -/
 
